@@ -59,9 +59,15 @@ def allInsts (d : Design) : List Inst := (List.range d.ndefs).flatMap (fun i => 
 def allCables (d : Design) : List Cable := (List.range d.ndefs).flatMap (fun i => (d.defs i).cables)
 
 /-- instance identifiers and cable identifiers are unique in the whole netlist (the harness numbers
-    the Python objects, so this is object identity) -/
+    the Python objects, so this is object identity): distinct inside every definition, and no
+    identifier occurs in two definitions -/
 def IdsUnique (d : Design) : Prop :=
-  ((allInsts d).map (·.id)).Nodup ∧ ((allCables d).map (·.id)).Nodup
+  (∀ i ∈ List.range d.ndefs, ((d.defs i).children.map (·.id)).Nodup) ∧
+  (∀ i ∈ List.range d.ndefs, ∀ j ∈ List.range d.ndefs, i ≠ j →
+      ∀ a ∈ (d.defs i).children, ∀ b ∈ (d.defs j).children, a.id ≠ b.id) ∧
+  (∀ i ∈ List.range d.ndefs, ((d.defs i).cables.map (·.id)).Nodup) ∧
+  (∀ i ∈ List.range d.ndefs, ∀ j ∈ List.range d.ndefs, i ≠ j →
+      ∀ a ∈ (d.defs i).cables, ∀ b ∈ (d.defs j).cables, a.id ≠ b.id)
 
 instance (d : Design) : Decidable (IdsUnique d) := by unfold IdsUnique; infer_instance
 
